@@ -127,9 +127,10 @@ def init (prog : Prog) (exec : Exec) : Except Panic World := do
 
 /-- `set_action` + optional `set_blocked` + `schedule` (`branch_action`, `branch_acquire`,
 `branch_disable`, `branch_opaque`) -/
-def branch (w : World) (obj : Nat) (act : Action) (block : Bool := false) : Except Panic World := do
+def branch (w : World) (obj : Nat) (act : Action) (block : Bool := false) (wait : Bool := false) :
+    Except Panic World := do
   let ths := w.ths.modifyActive fun t =>
-    let t := { t with operation := some ⟨obj, act⟩ }
+    let t := { t with operation := some ⟨obj, act, wait⟩ }
     if block then t.setBlocked else t
   let (e, _) ← ({ w.exec with threads := ths }).schedule w.panicking
   pure { w with exec := e }
@@ -219,7 +220,7 @@ def postAcquire (w : World) (o : Nat) : Except Panic (World × Bool) := do
   if m.lock.isSome then return (w, false)
   let w := w.setObj o (.mutex { m with lock := some w.tid })
   let w := w.setThs (w.ths.syncLoad m.sync .acq)
-  pure (w.forOthers (fun op => op.obj == o) Thread.setBlocked, true)
+  pure (w.forOthers (fun op => op.obj == o && op.blocking) Thread.setBlocked, true)
 
 /-- `Mutex::release_lock` -/
 def releaseLock (w : World) (o : Nat) : Except Panic World := do
@@ -244,14 +245,14 @@ def postAcquireRead (w : World) (o : Nat) : Except Panic (World × Bool) := do
     | some (.write _) => return (w, false)
   let w := w.setObj o (.rwlock { s with lock })
   let w := w.setThs (w.ths.syncLoad s.sync .acq)
-  pure (w.forOthers (fun op => op.obj == o && op.action == .rwWrite) Thread.setBlocked, true)
+  pure (w.forOthers (fun op => op.obj == o && op.action == .rwWrite && op.blocking) Thread.setBlocked, true)
 
 def postAcquireWrite (w : World) (o : Nat) : Except Panic (World × Bool) := do
   let s ← w.getRw o
   if s.lock.isSome then return (w, false)
   let w := w.setObj o (.rwlock { s with lock := some (.write w.tid) })
   let w := w.setThs (w.ths.syncLoad s.sync .acq)
-  pure (w.forOthers (fun op => op.obj == o) Thread.setBlocked, true)
+  pure (w.forOthers (fun op => op.obj == o && op.blocking) Thread.setBlocked, true)
 
 def releaseRead (w : World) (o : Nat) : Except Panic World := do
   let s ← w.getRw o
@@ -277,11 +278,17 @@ def releaseWrite (w : World) (o : Nat) : Except Panic World := do
 def parkNow (w : World) : Except Panic World := do
   if w.ths.activeT.token then
     -- a stored unpark is consumed instead of parking
-    pure (w.setThs (w.ths.modifyActive fun th => { th with token := false }))
+    pure (w.setThs (w.ths.modifyActive fun th => ({ th with token := false }).acquireUnpark))
   else
     let ths := w.ths.modifyActive fun th => { th.setParked with operation := none }
     let (e, _) ← ({ w.exec with threads := ths }).schedule w.panicking
     pure { w with exec := e }
+
+/-- `rt::block`: the thread blocks itself until `Set::wake`; the unpark token is not looked at -/
+def blockNow (w : World) : Except Panic World := do
+  let ths := w.ths.modifyActive fun th => { th.setBlocked with operation := none }
+  let (e, _) ← ({ w.exec with threads := ths }).schedule w.panicking
+  pure { w with exec := e }
 
 /-- first half of `rt::Notify::wait`: decide spurious / notified and branch.
 Returns the stage to continue with: 1 = woken normally, 2 = spurious return. -/
@@ -297,7 +304,7 @@ def notifyWait1 (w : World) (o : Nat) : Except Panic (World × Nat) := do
     let w ← w.yieldNow
     pure (w, 2)
   else
-    let w ← w.branch o .opaque (block := !s.notified)
+    let w ← w.branch o .opaque (block := !s.notified) (wait := !s.notified)
     pure (w, 1)
 
 /-- second half of `rt::Notify::wait` -/
@@ -514,7 +521,7 @@ def blockOnStage (w : World) (c : TCtl) (f mode : Nat) : Except Panic World := d
     -- slot modes: `let mut g = slot.lock(); *g = Some(waker); drop(g)`
     let w ← w.wakerClone fs.arc
     let m ← w.getMutex fs.slotMutex
-    (w.setStage 30).branch fs.slotMutex .opaque (block := m.lock.isSome)
+    (w.setStage 30).branch fs.slotMutex .opaque (block := m.lock.isSome) (wait := true)
   | 30 => do
     let (w, okk) ← w.postAcquire fs.slotMutex
     if !okk then throw .expectedLock
@@ -573,11 +580,11 @@ def blockOnStage (w : World) (c : TCtl) (f mode : Nat) : Except Panic World := d
     let w ← w.wakerDrop fs.arc
     if slotMode mode then
       let m ← w.getMutex fs.slotMutex
-      (w.setStage 45).branch fs.slotMutex .opaque (block := m.lock.isSome)
+      (w.setStage 45).branch fs.slotMutex .opaque (block := m.lock.isSome) (wait := true)
     else if mode == 3 || mode == 4 then pure (w.complete (.val 7))
     else
       let m ← w.getMutex fs.awMutex
-      (w.setStage 44).branch fs.awMutex .opaque (block := m.lock.isSome)
+      (w.setStage 44).branch fs.awMutex .opaque (block := m.lock.isSome) (wait := true)
   | 41 => do
     let w ← w.wakerDrop fs.arc
     pure (w.complete (.val 0))
@@ -613,7 +620,7 @@ def awTakeStage (w : World) (c : TCtl) (f : Nat) : Except Panic World := do
   match c.stage with
   | 0 => do
     let m ← w.getMutex fs.awMutex
-    (w.setStage 1).branch fs.awMutex .opaque (block := m.lock.isSome)
+    (w.setStage 1).branch fs.awMutex .opaque (block := m.lock.isSome) (wait := true)
   | 1 => do
     let (w, okk) ← w.postAcquire fs.awMutex
     if !okk then throw .expectedLock
@@ -638,11 +645,11 @@ def wakeStage (w : World) (c : TCtl) (f : Nat) (byValue : Bool) (store : Bool :=
     else do
       -- `wakeq`: no flag store
       let m ← w.getMutex fs.slotMutex
-      (w.setStage 2).branch fs.slotMutex .opaque (block := m.lock.isSome)
+      (w.setStage 2).branch fs.slotMutex .opaque (block := m.lock.isSome) (wait := true)
   | 1 => do
     let (w, _) ← w.primEffect f (.store 1 .rel)
     let m ← w.getMutex fs.slotMutex
-    (w.setStage 2).branch fs.slotMutex .opaque (block := m.lock.isSome)
+    (w.setStage 2).branch fs.slotMutex .opaque (block := m.lock.isSome) (wait := true)
   | 2 => do
     let (w, okk) ← w.postAcquire fs.slotMutex
     if !okk then throw .expectedLock
@@ -747,7 +754,7 @@ def runOp (w : World) (c : TCtl) (op : Op) : Except Panic World := do
     let o := w.mutexObj mi
     if c.stage == 0 then
       let m ← w.getMutex o
-      (w.setStage 1).branch o .opaque (block := m.lock.isSome)
+      (w.setStage 1).branch o .opaque (block := m.lock.isSome) (wait := true)
     else
       let (w, okk) ← w.postAcquire o
       if !okk then throw .expectedLock
@@ -766,7 +773,7 @@ def runOp (w : World) (c : TCtl) (op : Op) : Except Panic World := do
     if c.stage == 0 then
       let s ← w.getRw o
       let wl := match s.lock with | some (.write _) => true | _ => false
-      (w.setStage 1).branch o .rwRead (block := wl)
+      (w.setStage 1).branch o .rwRead (block := wl) (wait := true)
     else
       let (w, okk) ← w.postAcquireRead o
       if !okk then throw .expectedRead
@@ -775,7 +782,7 @@ def runOp (w : World) (c : TCtl) (op : Op) : Except Panic World := do
     let o := w.rwObj li
     if c.stage == 0 then
       let s ← w.getRw o
-      (w.setStage 1).branch o .rwWrite (block := s.lock.isSome)
+      (w.setStage 1).branch o .rwWrite (block := s.lock.isSome) (wait := true)
     else
       let (w, okk) ← w.postAcquireWrite o
       if !okk then throw .expectedWrite
@@ -807,10 +814,11 @@ def runOp (w : World) (c : TCtl) (op : Op) : Except Panic World := do
       let s ← w.getCv o
       let w := w.setObj o (.condvar { s with waiters := s.waiters ++ [w.tid] })
       let w ← w.releaseLock mo
-      (w.setStage 2).parkNow
+      -- (not through `park`: a stored unpark is not a notification — repair of finding F15)
+      (w.setStage 2).blockNow
     | 2 =>
       let m ← w.getMutex mo
-      (w.setStage 3).branch mo .opaque (block := m.lock.isSome)
+      (w.setStage 3).branch mo .opaque (block := m.lock.isSome) (wait := true)
     | _ =>
       let (w, okk) ← w.postAcquire mo
       if !okk then throw .expectedLock
@@ -824,14 +832,14 @@ def runOp (w : World) (c : TCtl) (op : Op) : Except Panic World := do
       | [] => pure (w.complete .unit)
       | t :: rest =>
         let w := w.setObj o (.condvar { s with waiters := rest })
-        pure ((w.setThs (w.ths.unpark t)).complete .unit)
+        pure ((w.setThs (w.ths.wake t)).complete .unit)
   | .cvAll vi =>
     let o := w.cvObj vi
     if c.stage == 0 then (w.setStage 1).branch o .opaque
     else
       let s ← w.getCv o
       let w := w.setObj o (.condvar { s with waiters := [] })
-      pure ((w.setThs (s.waiters.foldl (fun ths t => ths.unpark t) w.ths)).complete .unit)
+      pure ((w.setThs (s.waiters.foldl (fun ths t => ths.wake t) w.ths)).complete .unit)
   | .nWait ni =>
     let o := w.notifyObj ni
     match c.stage with
@@ -898,7 +906,7 @@ def runOp (w : World) (c : TCtl) (op : Op) : Except Panic World := do
     let o := w.chanObj qi
     if c.stage == 0 then
       let s ← w.getChan o
-      (w.setStage 1).branch o .chanRecv (block := s.msgCnt == 0)
+      (w.setStage 1).branch o .chanRecv (block := s.msgCnt == 0) (wait := true)
     else
       let (w, v) ← w.recvEffect o
       pure (w.complete (.val v))
@@ -1059,7 +1067,7 @@ def runOp (w : World) (c : TCtl) (op : Op) : Except Panic World := do
     match c.stage with
     | 0 => do
       let m ← w.getMutex fs.slotMutex
-      (w.setStage 1).branch fs.slotMutex .opaque (block := m.lock.isSome)
+      (w.setStage 1).branch fs.slotMutex .opaque (block := m.lock.isSome) (wait := true)
     | 1 => do
       let (w, okk) ← w.postAcquire fs.slotMutex
       if !okk then throw .expectedLock
@@ -1077,7 +1085,7 @@ def runOp (w : World) (c : TCtl) (op : Op) : Except Panic World := do
     | 1 => do
       let (w, _) ← w.primEffect f (.store 1 .rel)
       let m ← w.getMutex fs.awMutex
-      (w.setStage 2).branch fs.awMutex .opaque (block := m.lock.isSome)
+      (w.setStage 2).branch fs.awMutex .opaque (block := m.lock.isSome) (wait := true)
     | 2 => do
       let (w, okk) ← w.postAcquire fs.awMutex
       if !okk then throw .expectedLock
@@ -1101,7 +1109,7 @@ def runOp (w : World) (c : TCtl) (op : Op) : Except Panic World := do
     match c.stage with
     | 0 => do
       let m ← w.getMutex fs.slotMutex
-      (w.setStage 1).branch fs.slotMutex .opaque (block := m.lock.isSome)
+      (w.setStage 1).branch fs.slotMutex .opaque (block := m.lock.isSome) (wait := true)
     | 1 => do
       let (w, okk) ← w.postAcquire fs.slotMutex
       if !okk then throw .expectedLock
